@@ -49,7 +49,9 @@ var ansiRE = regexp.MustCompile(`\x1b\[[0-9;?]*[A-Za-z]`)
 //	P plain chunk ending in a newline     Q plain chunk without a newline
 //	M plain chunk with embedded newlines  N notice (red, like a close notice)
 //	S status line (green)
-const seamAlphabet = "PQMRNS"
+//	D plain chunk that is the same every time (a shell may well print the
+//	  same bytes twice in a row: progress dots, "yes", two equal lines)
+const seamAlphabet = "PQMRNSD"
 
 func seamItem(kind byte, i int) (cl opshell.CLine, want string) {
 	switch kind {
@@ -66,6 +68,8 @@ func seamItem(kind byte, i int) (cl opshell.CLine, want string) {
 		/* A shell that sends CR LF itself: nothing of it may be dropped. */
 		s := fmt.Sprintf("<R%d>dos\r\nline\rbar\r\n", i)
 		return opshell.CLine{Plain: true, Line: s}, strings.ReplaceAll(s, "\n", "\r\n")
+	case 'D':
+		return opshell.CLine{Plain: true, Line: "dup."}, "dup."
 	case 'N':
 		s := fmt.Sprintf("<N%d>[addr] Output connection closed", i)
 		return opshell.CLine{Line: s, Color: opshell.ColorRed}, s + "\r\n"
